@@ -10,9 +10,11 @@
    N), so consecutive rounds overlap: a caller of round r+1 can take the lock
    while the sleepers of round r have not run yet.
 
+   With N2 # N a caller that has left a round re-initialises the barrier (N <-> N2)
+   while the others, and the last arriver past its broadcast, are still leaving.
+
    Checked: nobody is released early -- at any time the number of callers that
-   have returned is at most N * (entries \div N), i.e. only complete rounds
-   return; the counter is below N whenever the lock is free (the ABTI_ASSERT of
+   have been released is at most the sum of the sizes of the complete rounds; the counter is below N whenever the lock is free (the ABTI_ASSERT of
    the code); under weak fairness every caller completes all its rounds
    (checked where |Threads| = N: with more callers than N the program itself may leave a caller without partners).
 
@@ -20,45 +22,55 @@
      Variant = "ResetLate"   the counter is reset after the lock is released: a
                              released caller re-enters, sees counter = N and
                              leaves the next round alone;
+     Variant = "SubReset"    the counter is reset by `counter -= num_waiters` (= seeded C08-m7): the
+                             count re-read there has been changed by a reinit (N2 # N);
      Variant = "BcastLate"   the broadcast is issued after the lock is released:
                              it wakes a caller that is already waiting for the
                              next round.                                         *)
-EXTENDS Naturals, FiniteSets
-CONSTANTS Threads, N, Rounds, Variant
-VARIABLES lk, counter, waiting, pc, left, entries, returns
-vars == <<lk, counter, waiting, pc, left, entries, returns>>
+EXTENDS Integers, FiniteSets
+CONSTANTS Threads, N, N2, Rounds, Variant
+VARIABLES lk, counter, waiting, pc, left, entries, returns, numw, cur, allowed
+vars == <<lk, counter, waiting, pc, left, entries, returns, numw, cur, allowed>>
 None == 0
-Init == /\ lk = None /\ counter = 0 /\ waiting = {} /\ entries = 0 /\ returns = 0
+Init == /\ lk = None /\ counter = 0 /\ waiting = {} /\ entries = 0 /\ returns = 0 /\ numw = N /\ cur = 0 /\ allowed = 0
         /\ pc = [t \in Threads |-> "idle"] /\ left = [t \in Threads |-> Rounds]
 Go(t, a, b) == pc[t] = a /\ pc' = [pc EXCEPT ![t] = b]
-Start(t) == Go(t, "idle", "acq") /\ left[t] > 0 /\ UNCHANGED <<lk, counter, waiting, left, entries, returns>>
-Acq(t) == Go(t, "acq", "inc") /\ lk = None /\ lk' = t /\ UNCHANGED <<counter, waiting, left, entries, returns>>
+Start(t) == Go(t, "idle", "acq") /\ left[t] > 0 /\ UNCHANGED <<lk, counter, waiting, left, entries, returns, numw, cur, allowed>>
+Acq(t) == Go(t, "acq", "inc") /\ lk = None /\ lk' = t /\ UNCHANGED <<counter, waiting, left, entries, returns, numw, cur, allowed>>
 Inc(t) == /\ pc[t] = "inc" /\ counter' = counter + 1 /\ entries' = entries + 1
-          /\ pc' = [pc EXCEPT ![t] = IF counter + 1 < N THEN "enq"
+          /\ pc' = [pc EXCEPT ![t] = IF counter + 1 < numw THEN "enq"
                                      ELSE IF Variant = "BcastLate" THEN "reset" ELSE "bcast"]
-          /\ UNCHANGED <<lk, waiting, left, returns>>
+          \* ghost: what the property says -- a round is complete when numw callers have entered it
+          /\ IF cur + 1 = numw THEN cur' = 0 /\ allowed' = allowed + numw ELSE cur' = cur + 1 /\ allowed' = allowed
+          /\ UNCHANGED <<lk, waiting, left, returns, numw>>
 \* not the last one: enqueue under the lock, release it in the suspend callback, sleep
-Enq(t) == Go(t, "enq", "sleepunlock") /\ waiting' = waiting \cup {t} /\ UNCHANGED <<lk, counter, left, entries, returns>>
-SleepUnlock(t) == Go(t, "sleepunlock", "sleep") /\ lk' = None /\ UNCHANGED <<counter, waiting, left, entries, returns>>
-Woken(t) == Go(t, "sleep", "ret") /\ t \notin waiting /\ UNCHANGED <<lk, counter, waiting, left, entries, returns>>
+Enq(t) == Go(t, "enq", "sleepunlock") /\ waiting' = waiting \cup {t} /\ UNCHANGED <<lk, counter, left, entries, returns, numw, cur, allowed>>
+SleepUnlock(t) == Go(t, "sleepunlock", "sleep") /\ lk' = None /\ UNCHANGED <<counter, waiting, left, entries, returns, numw, cur, allowed>>
+Woken(t) == Go(t, "sleep", "ret") /\ t \notin waiting /\ UNCHANGED <<lk, counter, waiting, left, entries, returns, numw, cur, allowed>>
 \* the last one
 Bcast(t) == /\ pc[t] = "bcast" /\ waiting' = {}
             /\ pc' = [pc EXCEPT ![t] = CASE Variant = "ResetLate" -> "rel" [] Variant = "BcastLate" -> "ret" [] OTHER -> "reset"]
-            /\ UNCHANGED <<lk, counter, left, entries, returns>>
-Reset(t) == /\ pc[t] = "reset" /\ counter' = 0
+            /\ UNCHANGED <<lk, counter, left, entries, returns, numw, cur, allowed>>
+Reset(t) == /\ pc[t] = "reset" /\ counter' = (IF Variant = "SubReset" THEN counter - numw ELSE 0)
             /\ pc' = [pc EXCEPT ![t] = IF Variant = "ResetLate" THEN "ret" ELSE "rel"]
-            /\ UNCHANGED <<lk, waiting, left, entries, returns>>
+            /\ UNCHANGED <<lk, waiting, left, entries, returns, numw, cur, allowed>>
 Rel(t) == /\ pc[t] = "rel" /\ lk' = None
           /\ pc' = [pc EXCEPT ![t] = CASE Variant = "ResetLate" -> "reset" [] Variant = "BcastLate" -> "bcast" [] OTHER -> "ret"]
-          /\ UNCHANGED <<counter, waiting, left, entries, returns>>
-Ret(t) == Go(t, "ret", "idle") /\ returns' = returns + 1 /\ left' = [left EXCEPT ![t] = @ - 1] /\ UNCHANGED <<lk, counter, waiting, entries>>
-Step(t) == Start(t) \/ Acq(t) \/ Inc(t) \/ Enq(t) \/ SleepUnlock(t) \/ Woken(t) \/ Bcast(t) \/ Reset(t) \/ Rel(t) \/ Ret(t)
+          /\ UNCHANGED <<counter, waiting, left, entries, returns, numw, cur, allowed>>
+Ret(t) == Go(t, "ret", "idle") /\ returns' = returns + 1 /\ left' = [left EXCEPT ![t] = @ - 1] /\ UNCHANGED <<lk, counter, waiting, entries, numw, cur, allowed>>
+\* ABT_barrier_reinit by a caller that has left the round while others (and the last arriver, past its
+\* broadcast) are still leaving it; nobody has entered the next round.  A plain store, no lock (barrier.c).
+Reinit(t) == /\ N2 # N /\ pc[t] = "idle" /\ left[t] > 0 /\ returns > 0 /\ waiting = {} /\ cur = 0
+             /\ \A u \in Threads : pc[u] \in {"idle", "sleep", "ret", "reset", "rel"}
+             /\ numw' = (IF numw = N THEN N2 ELSE N)
+             /\ UNCHANGED <<lk, counter, waiting, pc, left, entries, returns, cur, allowed>>
+Step(t) == Reinit(t) \/ Start(t) \/ Acq(t) \/ Inc(t) \/ Enq(t) \/ SleepUnlock(t) \/ Woken(t) \/ Bcast(t) \/ Reset(t) \/ Rel(t) \/ Ret(t)
 Next == \E t \in Threads : Step(t)
 Spec == Init /\ [][Next]_vars /\ \A t \in Threads : WF_vars(Step(t))
 \* only complete rounds return (a caller at "ret" has been released already)
 Released == returns + Cardinality({t \in Threads : pc[t] = "ret"})
-NoEarlyRelease == Released <= N * (entries \div N)
-CounterBelowN == lk = None => counter < N
+NoEarlyRelease == Released <= allowed
+CounterBelowN == lk = None => counter >= 0 /\ counter < numw
 \* the sleepers are exactly the callers of the incomplete round
 SleepersMatch == lk = None /\ (\A t \in Threads : pc[t] \notin {"ret", "sleep"} \/ t \in waiting) => Cardinality(waiting) = counter
 AllDone == <>(\A t \in Threads : left[t] = 0 /\ pc[t] = "idle")
